@@ -118,6 +118,39 @@ def cmp_eval(td, imp, model, case):
 EVAL_GATE = ("From Coq Require Import String.\nFrom Cel.Model Require Import Eval.\n"
              "From Cel.Proofs Require Import EvalBase.\n")
 
+def cmp_laws(td, imp, model, case):
+    if imp == model:
+        return None
+    if td.get("kind", "").startswith("law"):
+        return "a law of the property fails on the implementation's own answers: " + imp
+    return cmp_eval(td, imp, model, case)
+
+
+def c05_build_failure(out):
+    return ("assert_send_sync" in out or "cannot be sent between threads safely" in out
+            or "cannot be shared between threads safely" in out)
+
+
+PROPS["C05"] = dict(
+    streams=["C05"],
+    compare=cmp_laws,
+    classify=lambda case, model, why: dict(kind="failing-input", why=(case[1][:400] if "kind=law" in case[2] else why)),
+    gate_imports=EVAL_GATE + "From Cel.Proofs Require Import CtxEquiv FrameProofs.",
+    exhaustive=False,
+    build_failure_is_violation=c05_build_failure,
+    rule="a case is one execution inside a history (one context, 1-50 executions of generated programs, half of "
+         "them concatenating context-held lists/strings or running macros over them) or inside a thread run "
+         "(2-16 threads sharing one program set and one root context by reference, each in an inner scope with a "
+         "private variable); every execution is answered by the history-free model from (scope chain, program) "
+         "alone; non-trivial when the program concatenates a context-held buffer (histories) - always for thread "
+         "runs; the laws (every context variable, the program and every earlier result print the same after each "
+         "execution; a repetition and an equal fresh context give an equal result; owner counts of the context's "
+         "buffers are unchanged at the end of a history) are evaluated on the implementation's own state; "
+         "Program, Context and Value are asserted Send + Sync at compile time",
+    assumptions=["the interleavings exercised are those the OS scheduler produces; the memory model is not modelled"],
+    trusted_extra=["std::sync::Arc and the Rust memory model (shared-reference execution) are outside the model"],
+)
+
 PROPS["C06"] = dict(
     streams=["C06"],
     compare=cmp_eval,
@@ -131,14 +164,6 @@ PROPS["C06"] = dict(
          "observable); distinct by source text",
     assumptions=["outcome and ordered host-call log are the observations; wall-clock is not"],
 )
-
-
-def cmp_laws(td, imp, model, case):
-    if imp == model:
-        return None
-    if td.get("kind", "").startswith("law"):
-        return "a law of the property fails on the implementation's own answers: " + imp
-    return cmp_eval(td, imp, model, case)
 
 
 PROPS["C09"] = dict(
